@@ -1,6 +1,6 @@
 #!/bin/sh
 # usage: tools/sweep.sh <tier> <seed...>   runs every claimed check with each seed, 3 at a time; prints one line per run
-cd /verif
+cd "$(dirname "$0")/.."
 tier="$1"; shift
 ids=$(python3 -c "import json;print(' '.join(c['property_id'] for c in json.load(open('MANIFEST.json'))['checks']))")
 for seed in "$@"; do
